@@ -156,7 +156,11 @@ type c34Res struct {
 	panicked   any
 }
 
-func bodyC34(c c34Case, x *vkit.Ctx) {
+func bodyC34(c c34Case, x *vkit.Ctx) { runC34(c, x, 0) }
+
+// runC34 runs one program. attempt > 0 is a re-run in a shadow context (see
+// the "called after a leave had begun" verdict, which rests on the wall clock).
+func runC34(c c34Case, x *vkit.Ctx, attempt int) {
 	nw := simnet.New(1)
 	nw.Deliver = c.Peer == 2
 	var heldDials atomic.Int32
@@ -583,6 +587,26 @@ func bodyC34(c c34Case, x *vkit.Ctx) {
 						x.Label("late-join-not-judged:scheduler-stall")
 					} else {
 						x.Label("join-called-15ms-after-leave-or-shutdown-began")
+						// The verdict rests on "15 ms are enough for a call that has begun to
+						// claim the state". One goroutine can be held up that long by the
+						// operating system while the starvation monitor sees nothing, so a
+						// first failure is only a candidate: the program is run twice more,
+						// and it counts if it comes out the same way at least once.
+						if attempt == 0 && (r.err == nil || dialed) {
+							again := 0
+							for k := 0; k < 2; k++ {
+								sh := x.Shadow()
+								runC34(c, sh, 1)
+								if sh.HasViolation("join-accepted-after-leave-or-shutdown-began") || sh.HasViolation("join-contacts-peer-after-leave-or-shutdown") {
+									again++
+								}
+							}
+							if again == 0 {
+								x.Label("late-join-candidate-not-reproduced")
+								continue
+							}
+							x.Labelf("late-join-candidate-reproduced-%d-of-2", again)
+						}
 						if r.err == nil {
 							x.Violationf("join-accepted-after-leave-or-shutdown-began", "call %d: Join was called %v after call %d (%s) had begun and returned no error (n=%d, state read before the call: %v); calls: %s",
 								i, r.beganAt.Sub(p.beganAt).Round(time.Millisecond), j, []string{"Join", "Leave", "Shutdown"}[c.Calls[j].Kind%3], r.n, r.pre, describe())
